@@ -210,9 +210,44 @@ def run_property(mod, tier='quick', seed=0, jobs=None, only_shards=None):
         if pool is not None:
             pool.close()
             pool.join()
+        _sweep_scratch()
     total.counters.pop('shard_seconds_max', None)
     wall = time.time() - t0
     return finish(mod, tier, seed, total, errors, wall, len(shards), slowest)
+
+
+def _sweep_scratch():
+    """Workers of the pool leave without running exit handlers: remove the per-process scratch files (c<NN>-<pid>...) of
+    processes that no longer exist.  Files of checks running at the same time belong to live processes and are left alone."""
+    import re
+    import shutil
+    from mc import seams
+    try:
+        names = os.listdir(seams.SCRATCH)
+    except OSError:
+        return
+    for name in names:
+        m = re.match(r'c\d\d[-_](\d+)', name)
+        if not m:
+            continue
+        pid = int(m.group(1))
+        if pid == os.getpid():
+            continue
+        try:
+            os.kill(pid, 0)
+            continue            # alive (or not ours to judge)
+        except ProcessLookupError:
+            pass
+        except OSError:
+            continue
+        path = os.path.join(seams.SCRATCH, name)
+        try:
+            if os.path.isdir(path) and not os.path.islink(path):
+                shutil.rmtree(path, ignore_errors=True)
+            else:
+                os.remove(path)
+        except OSError:
+            pass
 
 
 def finish(mod, tier, seed, total, errors, wall, nshards, slowest):
